@@ -961,8 +961,9 @@ impl<'a, F: Family> Cx<'a, F> {
                     Ok(None) => Skipped,
                     Ok(Some((got, mode))) => {
                         let want = match mode {
-                            "arc" => Some(same_alloc || contents_eq),
-                            "value" => Some(contents_eq),
+                            // whether == sees through the pointer is a pure function of the two values
+                            // (property C14, not decided by this technique): only state changes are checked
+                            "arc" | "value" => None,
                             "ptr" => Some(same_alloc),
                             "union-mixed" | "ptr-mixed" => Some(false),
                             _ => None,
